@@ -30,6 +30,9 @@ DB_ERRATA = {
 # explicit operands that name one register: (kind or 'v' for the rv-sized accumulator, encoding id)
 FIXED_REGS = {'al': ('K_GP8', 0), 'ax': ('K_GP16', 0), 'eax': ('K_GP32', 0), 'rax': ('K_GP64', 0), 'axv': ('v', 0), 'cl': ('K_GP8', 1), 'dx': ('K_GP16', 2)}
 
+# the destination's read access depends on the immediate (vpternlog with imm 0x00/0xFF ignores its inputs): no claim on operand 0
+ACCESS_VALUE_DEPENDENT = {'vpternlogd', 'vpternlogq'}
+
 class Skip(Exception):
     pass
 
@@ -46,16 +49,19 @@ def split_ops(s):
         out.append(cur.strip())
     return out
 
-def parse_operand(tok):
+def parse_operand(tok, first=False):
     """-> dict(alts=[('reg',name)|('mem',name)|('imm',name)], deco=set())"""
+    ma = re.match(r'^([RWXrwx])(\??):', tok)
+    acc = (ma.group(1) if not ma.group(2) else '?') if ma else None
+    if acc is None and first: acc = '?'   # isa_x86.md: the first operand must carry an access mark; a few records do not -> no claim
     t = re.sub(r'^[RWXrwx]\??:', '', tok).strip()
     deco = set(re.findall(r'\{(\w+)\}', t))
     t = re.sub(r'\{\w+\}', '', t).strip()
     t = t.replace('~', '')
     if t.startswith('<') or t in ('dxv', 'st(0)', 'st(i)', 'es', 'cs', 'ss', 'ds', 'fs', 'gs'):
         raise Skip('implicit/fixed operand ' + t)
-    if t in FIXED_REGS: return dict(alts=[('fixedreg', t)], deco=deco)
-    if t == '1': return dict(alts=[('const1', t)], deco=deco)
+    if t in FIXED_REGS: return dict(alts=[('fixedreg', t)], deco=deco, acc=acc)
+    if t == '1': return dict(alts=[('const1', t)], deco=deco, acc=acc)
     alts = []
     for a in t.split('/'):
         a = a.strip()
@@ -70,7 +76,7 @@ def parse_operand(tok):
             pass  # broadcast alternative: not generated (b stays 0)
         else:
             raise Skip('operand token ' + a)
-    return dict(alts=alts, deco=deco)
+    return dict(alts=alts, deco=deco, acc=acc)
 
 def parse_op_string(op):
     """-> dict(layout, enc, pp, map, w, l, opcode, digit, has_modrm, modrm_mode, imm, is4, fixed, rexw, opreg, vl_token, w_token)"""
@@ -148,7 +154,8 @@ def expand(rec, arch, sig, opstr, extra):
     name = m.group(2)
     if '{' in name: raise Skip('apx name suffix')
     name = name.split('|')[0]
-    ops = [parse_operand(t) for t in split_ops(m.group(3))]
+    ops = [parse_operand(t, i == 0) for i, t in enumerate(split_ops(m.group(3)))]
+    if name in ACCESS_VALUE_DEPENDENT and ops: ops[0]['acc'] = '?'
     if len(ops) > 4: raise Skip('more than 4 operands')
     o = parse_op_string(opstr)
     if arch == 'apx': raise Skip('apx')
@@ -178,7 +185,7 @@ def expand(rec, arch, sig, opstr, extra):
                 kinds = sorted(set(a[0] for a in op['alts']))
                 for k in kinds:
                     a = [x for x in op['alts'] if x[0] == k][0]
-                    for v in variants: nv.append(v + [(a, op['deco'])])
+                    for v in variants: nv.append(v + [(a, op['deco'], op['acc'])])
                 variants = nv
             for var in variants:
                 try:
@@ -187,8 +194,19 @@ def expand(rec, arch, sig, opstr, extra):
                     raise
     return out
 
+IO_BITS = {'OF': 'kX86_OF', 'CF': 'kX86_CF', 'ZF': 'kX86_ZF', 'SF': 'kX86_SF', 'AF': 'kX86_AF', 'PF': 'kX86_PF', 'DF': 'kX86_DF', 'IF': 'kX86_IF', 'AC': 'kX86_AC',
+           'C0': 'kX86_C0', 'C1': 'kX86_C1', 'C2': 'kX86_C2', 'C3': 'kX86_C3'}
+def io_masks(io):
+    rd, wr = [], []
+    for t in (io or '').split():
+        k, v = t.split('=')
+        if k not in IO_BITS: continue
+        if v in ('R', 'X'): rd.append(IO_BITS[k])
+        if v in ('W', 'X', '0', '1', 'U'): wr.append(IO_BITS[k])
+    f = lambda l: ' | '.join('uint32_t(CpuRWFlags::%s)' % x for x in l) or '0'
+    return f(rd), f(wr)
 def build_form(name, o, var, gsz, vsz, modes, extra):
-    f = dict(name=name, enc=o['enc'], pp=o['pp'], map=o['map'], opcode=o['opcode'], digit=o['digit'], has_modrm=o['has_modrm'], w=o['w'], l=o['l'], osize=0, ops=[], imm_bytes=0,
+    f = dict(io=io_masks(extra.get('io')), name=name, enc=o['enc'], pp=o['pp'], map=o['map'], opcode=o['opcode'], digit=o['digit'], has_modrm=o['has_modrm'], w=o['w'], l=o['l'], osize=0, ops=[], imm_bytes=0,
              disp8_shift=0, flags=[], fixed=o['fixed'], modes=modes)
     if o['w_token'] == 'y': f['w'] = 1 if gsz == 8 else 0
     if o['vl_token']: f['l'] = {16: 0, 32: 1, 64: 2}[vsz]
@@ -201,20 +219,21 @@ def build_form(name, o, var, gsz, vsz, modes, extra):
     roles = {'R': 'R_REG', 'M': 'R_RM', 'V': 'R_VVVV', 'S': 'R_IS4'}
     imm_specs = list(o['imm'])
     li = 0; mem_seen = False
-    nregmem = sum(1 for (alt, deco) in var if alt[0] in ('reg', 'mem'))
+    nregmem = sum(1 for (alt, deco, acc) in var if alt[0] in ('reg', 'mem'))
     if len(layout) > nregmem and layout.replace('V', '', 1) and len(layout) - 1 == nregmem and 'V' in layout and (name, 'layout') in DB_ERRATA:
         layout = layout.replace('V', '', 1)
-    for (alt, deco) in var:
+    for opi, (alt, deco, acc) in enumerate(var):
         kind, tok = alt
+        acc = acc or 'R'   # operands without a mark are read-only (isa_x86.md)
         if kind == 'const1':
-            f['ops'].append(('K_IMM', 'R_NONE', 0, 1)); continue
+            f['ops'].append(('K_IMM', 'R_NONE', 0, 1, 'R')); continue
         if kind == 'fixedreg':
             k, rid = FIXED_REGS[tok]
             if k == 'v':
                 if gsz is None: raise Skip('axv without size group')
                 k = {2: 'K_GP16', 4: 'K_GP32', 8: 'K_GP64'}[gsz]
             if k == 'K_GP64': f['modes'] &= 2
-            f['ops'].append((k, 'R_NONE', 0, rid)); continue
+            f['ops'].append((k, 'R_NONE', 0, rid, acc)); continue
         if kind == 'imm':
             if tok == 'imm4': raise Skip('imm4')
             nb = IMM_SIZES.get(tok)
@@ -227,7 +246,7 @@ def build_form(name, o, var, gsz, vsz, modes, extra):
             f['imm_bytes'] = spec
             # sign-extended to the operand size (value must survive the extension) or a plain field of that width
             sext = tok in ('imms8', 'imms32') or (tok == 'immv' and gsz == 8) or (tok in ('imm8',) and False)
-            f['ops'].append(('K_IMM', 'R_IMM', spec, -2 if sext else -1))
+            f['ops'].append(('K_IMM', 'R_IMM', spec, -2 if sext else (-3 if tok.startswith('immu') else -1), 'R'))
             continue
         if o['opreg']:
             role = 'R_OPREG'
@@ -246,7 +265,7 @@ def build_form(name, o, var, gsz, vsz, modes, extra):
             else: k = REG_KINDS[tok]
             if k == 'K_GP64': f['modes'] &= 2
             if role == 'R_RM' and o['modrm_mode'] == 'mem': raise Skip('reg alt in mem-only modrm')
-            f['ops'].append((k, role, 0, -1))
+            f['ops'].append((k, role, 0, -1, acc))
         else:
             if role != 'R_RM': raise Skip('memory operand not in rm position')
             if o['modrm_mode'] == 'reg': raise Skip('mem alt in reg-only modrm')
@@ -258,7 +277,7 @@ def build_form(name, o, var, gsz, vsz, modes, extra):
             elif tok == 'mxxx': sz = {16: 4, 32: 8, 64: 16}[vsz]
             elif tok == 'mxxy': sz = {16: 8, 32: 16, 64: 32}[vsz]
             else: sz = MEM_SIZES[tok]
-            f['ops'].append(('K_MEM', role, sz, -1))
+            f['ops'].append(('K_MEM', role, sz, -1, acc))
         if 'kz' in deco: f['flags'] = ['F_K', 'F_Z']
         elif 'k' in deco: f['flags'] = ['F_K']
     if (name, o['enc'][2:]) in DB_ERRATA: f.update(DB_ERRATA[(name, o['enc'][2:])])
@@ -326,7 +345,7 @@ for g in db['instructions']:
 for nm in ('ret', 'retf'):
     if (nm, ('K_IMM',)) in groups and (nm, ()) in groups:
         for f in groups[(nm, ())]:
-            g = dict(f); g['ops'] = [('K_IMM', 'R_NONE', 0, 0)]
+            g = dict(f); g['ops'] = [('K_IMM', 'R_NONE', 0, 0, 'R')]
             groups[(nm, ('K_IMM',))].append(g)
 # mov between the accumulator and an absolute address has the moffs encodings (A0..A3), which are not generated: excluded
 for key, forms in groups.items():
@@ -338,6 +357,8 @@ for key, forms in groups.items():
 KF_EVEX = {'vmpsadbw': ('D10', False)}
 for _n in ('vpdpbssd', 'vpdpbssds', 'vpdpbsud', 'vpdpbsuds', 'vpdpbuud', 'vpdpbuuds', 'vpdpwsud', 'vpdpwsuds', 'vpdpwusd', 'vpdpwusds', 'vpdpwuud', 'vpdpwuuds'):
     KF_EVEX[_n] = ('D11', True)   # only groups with a memory operand
+# D4 (no 15-byte limit): XOP lwpins/lwpval with a memory operand reach 16 bytes with segment + address-size overrides
+KF_LEN = {'lwpins': 'D4', 'lwpval': 'D4'}
 # Groups left out, with the reason (listed in forms_gen.json)
 EXCLUDED_GROUPS = {('xchg', ('K_GP64', 'K_GP64')): 'xchg rax, rax is emitted as 90 (nop), a semantic alias outside the record syntax',
                    ('xchg', ('K_GP32', 'K_GP32')): 'accumulator alias handling (xchg eax, eax must not be 90 in 64-bit mode) is checked by hand-written harness instead',
@@ -358,10 +379,10 @@ for key, forms in groups.items():
     tab = 'kForms_%d' % idx
     rows = []
     for f in forms:
-        ops = ', '.join('{%s, %s, %d, %d}' % op for op in f['ops']) or '{0,0,0,-1}'
-        rows.append('  {%s, %s, %d, %d, 0x%02X, %d, %d, %d, %d, %d, %d, {%s}, %d, %d, %s, %d, {%s}}' % (
+        ops = ', '.join("{%s, %s, %d, %d, '%s'}" % op for op in f['ops']) or "{0,0,0,-1,'R'}"
+        rows.append('  {%s, %s, %d, %d, 0x%02X, %d, %d, %d, %d, %d, %d, {%s}, %d, %d, %s, %d, {%s}, %s, %s}' % (
             inst_id(name), f['enc'], f['pp'], f['map'], f['opcode'], f['digit'], f['has_modrm'], f['w'], f['l'], f['osize'], len(f['ops']), ops,
-            f['imm_bytes'], f['disp8_shift'], '|'.join(f['flags']) or '0', len(f['fixed']), ', '.join('0x%02X' % b for b in f['fixed']) or '0'))
+            f['imm_bytes'], f['disp8_shift'], '|'.join(f['flags']) or '0', len(f['fixed']), ', '.join('0x%02X' % b for b in f['fixed']) or '0', f['io'][0], f['io'][1]))
     hdr.append('static const Form %s[] = {\n%s\n};' % (tab, ',\n'.join(rows)))
     modes = 0
     for f in forms: modes |= f['modes']
@@ -381,12 +402,25 @@ for key, forms in groups.items():
             hdr.append('static const Form %s[] = { %s };' % (tabn, ', '.join('%s[%d]' % (tab, i) for i in sel)))
         x64 = 'true' if mode == '64' else 'false'
         rec = dict(inst=name, mode=mode, enc='+'.join(sorted(set(forms[i]['enc'] for i in sel))), has_mem=has_mem, nforms=len(sel), records=sorted(set(forms[i]['record'] for i in sel)))
-        if kf:
-            harn.append('#if KF_%s && !defined(VF_AGREE) && !defined(VF_LOGINDEP)\nHARNESS %s() { vf::run_forms<%s>(vf::%s, %d, 1); }\nHARNESS %s_kf_%s() { vf::run_forms<%s>(vf::%s, %d, 2); }\n#else\nHARNESS %s() { VF_RUN(%s, vf::%s, %d); }\n#endif' % (
-                kf[0], fn, x64, tabn, cnt, fn, kf[0], x64, tabn, cnt, fn, x64, tabn, cnt))
-            meta.append(dict(rec, fn=fn)); meta.append(dict(rec, fn='%s_kf_%s' % (fn, kf[0]), known=kf[0]))
+        kl = KF_LEN.get(name) if (has_mem and mode == '64') else None
+        if kl:
+            harn.append('#if KF_%s\nHARNESS %s() { VF_RUN(%s, vf::%s, %d, 3); }\n#if VF_C01\nHARNESS %s_kf_%s() { vf::run_forms<%s>(vf::%s, %d, 4); }\n#endif\n#else\nHARNESS %s() { VF_RUN(%s, vf::%s, %d, 0); }\n#endif' % (
+                kl, fn, x64, tabn, cnt, fn, kl, x64, tabn, cnt, fn, x64, tabn, cnt))
+            meta.append(dict(rec, fn=fn)); meta.append(dict(rec, fn='%s_kf_%s' % (fn, kl), known=kl))
+        elif name in KF_EVEX and any(forms[i]['enc'] == 'E_EVEX' for i in sel):
+            # C01: D10 / D11 (D11 only with a memory operand); C13: D15 (validator refuses the EVEX-only operands the encoder encodes)
+            c01 = kf[0] if kf else None
+            cond = ' || '.join('KF_%s' % x for x in ([c01] if c01 else []) + ['D15'])
+            txt = '#if %s\nHARNESS %s() { VF_RUN(%s, vf::%s, %d, 1); }\n' % (cond, fn, x64, tabn, cnt)
+            if c01: txt += '#if VF_C01 && KF_%s\nHARNESS %s_kf_%s() { vf::run_forms<%s>(vf::%s, %d, 2); }\n#endif\n' % (c01, fn, c01, x64, tabn, cnt)
+            txt += '#if defined(VF_AGREE) && KF_D15\nHARNESS %s_kf_D15() { vf::run_agree<%s>(vf::%s, %d, 2); }\n#endif\n' % (fn, x64, tabn, cnt)
+            txt += '#else\nHARNESS %s() { VF_RUN(%s, vf::%s, %d, 0); }\n#endif' % (fn, x64, tabn, cnt)
+            harn.append(txt)
+            meta.append(dict(rec, fn=fn))
+            if c01: meta.append(dict(rec, fn='%s_kf_%s' % (fn, c01), known=c01))
+            meta.append(dict(rec, fn='%s_kf_D15' % fn, known='D15'))
         else:
-            harn.append('HARNESS %s() { VF_RUN(%s, vf::%s, %d); }' % (fn, x64, tabn, cnt))
+            harn.append('HARNESS %s() { VF_RUN(%s, vf::%s, %d, 0); }' % (fn, x64, tabn, cnt))
             meta.append(dict(rec, fn=fn))
     idx += 1
 hdr.append('}  // namespace vf')
